@@ -272,6 +272,13 @@ def gen_relay(work, tier, seed):
         acts = [{"a": "bs", "n": 300}, {"a": "reout", "n": [1 << 20, 3 << 20][k % 2], "afterms": [1, 3, 8, 20][k % 4], "gated": k % 2 == 0}, {"a": "cs", "decl": 9, "carr": 9}, {"a": "bs", "n": 5000}]
         scripts.append({"id": "y%05d" % len(scripts), "origin": "second-out:%d" % k, "cfg": base_cfg(token), "transport": "legacy",
                         "tun": dict(H_A, user="user1" if token else "nuser1"), "steps": session(token)[:4], "actions": acts})
+    # a long burst and then the close while the host is behind in reading
+    for k, tr in enumerate(("ws", "legacy")):
+        token = k % 2 == 0
+        npk = 1024 if tier == "quick" else 2048
+        acts = [{"a": "cs", "decl": 50, "carr": 50}, {"a": "burstclose", "sizes": [4096] * npk, "apart": True, "slowhost": True}]
+        scripts.insert(0, {"id": "y%05d" % len(scripts), "origin": "burstclose-busyhost", "cfg": base_cfg(token), "transport": tr,
+                           "tun": dict(H_A, user="user1" if token else "nuser1"), "steps": session(token)[:4], "actions": acts})
     # size ladder: every size class alone in each direction
     for tr in ("ws", "legacy"):
         for n in SIZES + ([3 << 20] if tier == "thorough" else []):
